@@ -22,6 +22,8 @@ def diagnostics : List String :=
     "C18 callerHolds entry no longer justified by the call rows: " ++ nameOf e.fn ++ " under " ++ nameOf e.lock)) ++
   ((calls.filter (reentrant tables acquires)).map (fun c =>
     "C18 re-entrant lock: " ++ nameOf c.caller ++ " calls " ++ nameOf c.callee ++ " (line " ++ toString c.line ++ ") holding a mutex the callee locks again")) ++
+  (if callbacks == reviewedCallbacks then [] else
+    ["C18 work-manager callbacks changed: extracted [" ++ ", ".intercalate (callbacks.map (fun c => nameOf c.fn ++ (if c.multi then " (multi)" else " (single)"))) ++ "]"]) ++
   ((knownRacy.filter (fun k => !racyPairs.any (fun p => p.1.field == k.field && p.1.fn == k.fnA && p.2.fn == k.fnB))).map (fun k =>
     "C18 stale knownRacy entry: " ++ nameOf k.field ++ " " ++ nameOf k.fnA ++ " | " ++ nameOf k.fnB))
 
@@ -84,6 +86,18 @@ theorem C18_lockset_statement_false : ¬ C18_lockset_statement := by
 /-- **No re-entrant locking**: no function is called with a mutex held that it locks again itself (the recursive
 read lock of the block-locator functions was of this kind). -/
 theorem C18_no_reentrant_lock : calls.all (fun c => !reentrant tables acquires c) = true := by decide +kernel
+
+/-- **The work-manager callbacks are the reviewed ones**, with the reviewed multiplicity: the functions registered as
+`query.Request.HandleResp` (extracted) run on worker goroutines; everything their receiver structs hold and every
+local variable their closures capture and write is part of the access table above. -/
+theorem C18_callbacks_reviewed : callbacks = reviewedCallbacks := by decide +kernel
+
+/-- no stale `ordered` entry: each one names a real conflicting pair of rows without a common mutex -/
+theorem C18_ordered_used :
+    ordered.all (fun k => ((rowsOf k.field).filter (·.fn == k.fnA)).any (fun r =>
+      ((rowsOf k.field).filter (·.fn == k.fnB)).any (fun s =>
+        conflict tables r s && !share (effHeld tables r.fn r.held) (effHeld tables s.fn s.held)))) = true := by
+  decide +kernel
 
 /-- the "only called with the lock held" claims of the ownership table agree with every extracted call -/
 theorem C18_caller_holds : callerHolds.all (callerHoldsOk tables calls) = true := by decide +kernel
